@@ -5,7 +5,9 @@
    and then opens the substate with MUTABLE, which the system layer refuses when it is Locked. *)
 From Coq Require Import List NArith Bool.
 Import ListNotations.
-Require Import RV.Model.C51_Locked RV.Proof.C51_Locked.
+Require Import RV.Model.C51_Locked RV.Proof.C51_Locked RV.Gen.C51_lock_sites.
+From Coq Require String.
+Import String.StringSyntax.
 Open Scope N_scope.
 
 (* Locked is absorbing in every history: from any state in which substate k (object field,
@@ -38,6 +40,48 @@ Theorem C51_lock_locks :
   (forall r, o_locked (create_owner r UNone) = true).
 Proof. repeat split; [exact lock_locks|apply lock_owner_locks; assumption|apply lock_owner_locks; assumption|apply lock_owner_locks; assumption|exact owner_none_denies_all]. Qed.
 
+(* THE LOCK WRITERS OF THE ENGINE, pinned. gen_c51 scans radix-engine/src on every run for everything that
+   makes a substate Locked; the list below is the reviewed one. Each entry is an instance of a model
+   cell (kind KField / KKvEntry / KMetadata / KRoyalty, or the owner role) being locked by `SLock`
+   resp. being created with c_locked = true; C51_locked_monotone covers all of them. A new writer, or
+   one that disappears (e.g. a burn that no longer tombstones, a lock method that no longer locks),
+   breaks this theorem and must be reviewed.
+     run-time lock calls (the only ones in the engine; no unlock primitive exists):
+       metadata lock                 -> exercised (c51: resources and accounts)
+       component royalty lock_royalty-> exercised (c51)
+       non-fungible burn tombstone   -> exercised (c43)
+       role assignment lock_owner_role (field_lock) -> exercised (c51)
+     created immutable / locked:
+       owner role created Fixed/None -> exercised (c51, set_owner_role / lock_owner_role refused)
+       metadata entries created locked (MetadataInit; the `locked` flag is data, not a literal, so it
+         is not in the scan) -> exercised (c51)
+       component royalty accumulator, fungible divisibility / total supply, non-fungible id type /
+         mutable fields / total supply, pool state, consensus manager configuration, package royalty
+         field and the 8 package key-value collections (definitions, code, schemas, ...): the
+         blueprints offer NO method that writes these substates, so there is nothing to attack from a
+         transaction; covered by the theorem only. *)
+Local Open Scope string_scope.
+Definition reviewed_lock_sites : list (String.string * String.string * nat) := [
+  ("field_created_immutable", "blueprints/consensus_manager/consensus_manager.rs", 1%nat);
+  ("field_created_immutable", "blueprints/package/package.rs", 1%nat);
+  ("field_created_immutable", "blueprints/pool/v1/v1_0/one_resource_pool_blueprint.rs", 1%nat);
+  ("field_created_immutable", "blueprints/pool/v1/v1_0/two_resource_pool_blueprint.rs", 1%nat);
+  ("field_created_immutable", "blueprints/pool/v1/v1_1/one_resource_pool_blueprint.rs", 1%nat);
+  ("field_created_immutable", "blueprints/pool/v1/v1_1/two_resource_pool_blueprint.rs", 1%nat);
+  ("field_created_immutable", "blueprints/resource/fungible/fungible_resource_manager.rs", 2%nat);
+  ("field_created_immutable", "blueprints/resource/non_fungible/non_fungible_resource_manager.rs", 3%nat);
+  ("field_created_immutable", "object_modules/role_assignment/package.rs", 1%nat);
+  ("field_created_immutable", "object_modules/royalty/package.rs", 1%nat);
+  ("field_lock_call", "object_modules/role_assignment/package.rs", 1%nat);
+  ("kv_entry_created_locked", "blueprints/package/package.rs", 8%nat);
+  ("kv_entry_lock_call", "blueprints/resource/non_fungible/non_fungible_resource_manager.rs", 1%nat);
+  ("kv_entry_lock_call", "object_modules/metadata/package.rs", 1%nat);
+  ("kv_entry_lock_call", "object_modules/royalty/package.rs", 1%nat)
+].
+Local Close Scope string_scope.
+Theorem C51_lock_sites_pinned : c51_lock_sites = reviewed_lock_sites.
+Proof. reflexivity. Qed.
+
 (* non-vacuity: metadata key 7 set, locked, then set / remove / lock attempts by fully authorised
    callers fail and the value stays; owner role locked, then set by a caller satisfying the owner rule fails *)
 Example C51_nonvacuous :
@@ -54,3 +98,4 @@ Proof. vm_compute. repeat split. Qed.
 Print Assumptions C51_locked_monotone.
 Print Assumptions C51_owner_locked_monotone.
 Print Assumptions C51_lock_locks.
+Print Assumptions C51_lock_sites_pinned.
